@@ -18,10 +18,10 @@ structure Core where
   store : List Recording
 
 def St.core (s : St) : Core :=
-  ⟨s.enabled, s.active, s.forced, s.counter, s.playback, s.playbackOutputs, s.inInt, s.draws, s.drawn, s.nextId, s.store⟩
+  ⟨s.enabled && s.active.isSome, s.active, s.forced, s.counter, s.playback, s.playbackOutputs, s.inInt, s.draws, s.drawn, s.nextId, s.store⟩
 
 theorem core_eq_iff (s s' : St) : s.core = s'.core ↔
-    s.enabled = s'.enabled ∧ s.active = s'.active ∧ s.forced = s'.forced ∧ s.counter = s'.counter ∧
+    (s.enabled && s.active.isSome) = (s'.enabled && s'.active.isSome) ∧ s.active = s'.active ∧ s.forced = s'.forced ∧ s.counter = s'.counter ∧
     s.playback = s'.playback ∧ s.playbackOutputs = s'.playbackOutputs ∧ s.inInt = s'.inInt ∧ s.draws = s'.draws ∧
     s.drawn = s'.drawn ∧ s.nextId = s'.nextId ∧ s.store = s'.store := by
   simp [St.core]
@@ -30,41 +30,41 @@ section helpers
 variable {s s' : St} (h : s.core = s'.core)
 include h
 
+set_option hygiene false in
+/-- destructure both states, identify everything the cores share; what remains is the two raw switches `e1`, `e2` with
+`(e1 && act.isSome) = (e2 && act.isSome)` -/
+macro "core_cases" : tactic => `(tactic| (
+  obtain ⟨e1, act, f1, c1, p1, po1, i1, d1, dn1, cl1, n1, st1, l1, j1⟩ := s
+  obtain ⟨e2, act2, f2, c2, p2, po2, i2, d2, dn2, cl2, n2, st2, l2, j2⟩ := s'
+  simp only [St.core, Core.mk.injEq] at h
+  obtain ⟨he, rfl, rfl, rfl, rfl, rfl, rfl, rfl, rfl, rfl, rfl⟩ := h))
+
 theorem core_addJournal (e e') : (addJournal s e).core = (addJournal s' e').core := by
   rw [core_eq_iff] at h ⊢; simpa using h
 theorem core_setInt (b) : (setInt s b).core = (setInt s' b).core := by
-  rw [core_eq_iff] at h ⊢; obtain ⟨h1, h2, h3, h4, h5, h6, h7, h8, h9, h10, h11⟩ := h
-  simp [setInt, h1, h2, h3, h4, h5, h6, h8, h9, h10, h11]
+  core_cases
+  simp [St.core, setInt, he]
 theorem core_doDiscard : (doDiscard s).core = (doDiscard s').core := by
-  obtain ⟨e1, act, f1, c1, p1, po1, i1, d1, dn1, cl1, n1, st1, l1, j1⟩ := s
-  obtain ⟨e2, act2, f2, c2, p2, po2, i2, d2, dn2, cl2, n2, st2, l2, j2⟩ := s'
-  simp only [St.core, Core.mk.injEq] at h
-  obtain ⟨rfl, rfl, rfl, rfl, rfl, rfl, rfl, rfl, rfl, rfl, rfl⟩ := h
-  cases act <;> simp [St.core, doDiscard, resetActive, addLog]
+  core_cases
+  cases act <;> simp_all [St.core, doDiscard, resetActive, addLog]
 theorem core_doForce : (doForce s).core = (doForce s').core := by
-  obtain ⟨e1, act, f1, c1, p1, po1, i1, d1, dn1, cl1, n1, st1, l1, j1⟩ := s
-  obtain ⟨e2, act2, f2, c2, p2, po2, i2, d2, dn2, cl2, n2, st2, l2, j2⟩ := s'
-  simp only [St.core, Core.mk.injEq] at h
-  obtain ⟨rfl, rfl, rfl, rfl, rfl, rfl, rfl, rfl, rfl, rfl, rfl⟩ := h
+  core_cases
   cases act with
-  | none => simp [St.core, doForce]
-  | some a => by_cases hi : a.params.ignoreForce = true <;> simp [St.core, doForce, hi]
+  | none => simp_all [St.core, doForce]
+  | some a => by_cases hi : a.params.ignoreForce = true <;> simp_all [St.core, doForce, hi]
 theorem core_write (k v) : (write s k v).core = (write s' k v).core := by
-  obtain ⟨e1, act, f1, c1, p1, po1, i1, d1, dn1, cl1, n1, st1, l1, j1⟩ := s
-  obtain ⟨e2, act2, f2, c2, p2, po2, i2, d2, dn2, cl2, n2, st2, l2, j2⟩ := s'
-  simp only [St.core, Core.mk.injEq] at h
-  obtain ⟨rfl, rfl, rfl, rfl, rfl, rfl, rfl, rfl, rfl, rfl, rfl⟩ := h
-  cases act <;> simp [St.core, write]
+  core_cases
+  cases act <;> simp_all [St.core, write]
 theorem core_pushPlayback (k v) : (pushPlayback s k v).core = (pushPlayback s' k v).core := by
-  rw [core_eq_iff] at h ⊢; obtain ⟨h1, h2, h3, h4, h5, h6, h7, h8, h9, h10, h11⟩ := h
-  simp [pushPlayback, h1, h2, h3, h4, h5, h6, h7, h8, h9, h10, h11]
+  core_cases
+  simp [St.core, pushPlayback, he]
 theorem core_bump (a) : (bump s a).core = (bump s' a).core := by
-  rw [core_eq_iff] at h ⊢; obtain ⟨h1, h2, h3, h4, h5, h6, h7, h8, h9, h10, h11⟩ := h
-  simp [bump, h1, h2, h3, h4, h5, h6, h7, h8, h9, h10, h11]
+  core_cases
+  simp [St.core, bump, he]
 theorem core_modes : shouldIntercept s = shouldIntercept s' ∧ inPlaybackMode s = inPlaybackMode s' ∧
     inRecordingMode s = inRecordingMode s' := by
-  rw [core_eq_iff] at h; obtain ⟨h1, h2, _, _, h5, _, h7, _⟩ := h
-  simp [shouldIntercept, inPlaybackMode, inRecordingMode, h1, h2, h5, h7]
+  core_cases
+  simp [shouldIntercept, inPlaybackMode, inRecordingMode, he]
 theorem core_doRecordData (key v) : (doRecordData s key v).core = (doRecordData s' key v).core := by
   unfold doRecordData
   rw [(core_modes h).2.2]
@@ -88,13 +88,8 @@ theorem core_afterOutput (al n o) : (afterOutput al n s o).core = (afterOutput a
   unfold afterOutput
   split <;> exact core_write h _ _
 theorem core_doSetEnabled (b : Bool) : (doSetEnabled s b).core = (doSetEnabled s' b).core := by
-  unfold doSetEnabled
-  split
-  · rw [core_eq_iff] at h ⊢; obtain ⟨_, h2, h3, h4, h5, h6, h7, h8, h9, h10, h11⟩ := h
-    exact ⟨rfl, h2, h3, h4, h5, h6, h7, h8, h9, h10, h11⟩
-  · have := core_doDiscard h
-    rw [core_eq_iff] at this ⊢; obtain ⟨_, h2, h3, h4, h5, h6, h7, h8, h9, h10, h11⟩ := this
-    exact ⟨rfl, h2, h3, h4, h5, h6, h7, h8, h9, h10, h11⟩
+  core_cases
+  cases b <;> cases act <;> simp_all [St.core, doSetEnabled, doDiscard, resetActive, addLog]
 theorem core_doPlayData (key) : doPlayData s key = doPlayData s' key := by
   rw [core_eq_iff] at h
   unfold doPlayData
@@ -226,7 +221,7 @@ theorem core_tick (s s' : St) (h : s.core = s'.core) : (tick s).1.core = (tick s
   obtain ⟨a1, a2, a3, a4, a5, a6, _, _, a9, a10, a11, a12, a13⟩ := a
   obtain ⟨b1, b2, b3, b4, b5, b6, _, _, b9, b10, b11, b12, b13⟩ := b
   obtain ⟨h1, h2, h3, h4, h5, h6, h7, h8, h9, h10, h11⟩ := h
-  refine ⟨by rw [a10, b10, h1], by rw [a1, b1, h2], by rw [a2, b2, h3], by rw [a3, b3, h4], by rw [a4, b4, h5],
+  refine ⟨by rw [a10, b10, a1, b1, h1], by rw [a1, b1, h2], by rw [a2, b2, h3], by rw [a3, b3, h4], by rw [a4, b4, h5],
     by rw [a5, b5, h6], by rw [a6, b6, h7], by rw [a12, b12, h8], by rw [a13, b13, h9], by rw [a11, b11, h10],
     by rw [a9, b9, h11]⟩
 
@@ -316,8 +311,8 @@ theorem runPlay_core (ao : AliasOracle) (cfg : OpCfg) (id : Nat) (p : Prog) (s s
       | exc t => simp only; split <;> exact ⟨rfl, hfin⟩
 
 /-- a replay leaves the core of an idle recorder as it found it -/
-theorem runPlay_restores_core (ao : AliasOracle) (cfg : OpCfg) (s : St) (id : Nat) (p : Prog) (h : s.Idle)
-    (hns : p.NoSwitch) : (runPlay ao cfg s id p).1.core = s.core := by
+theorem runPlay_restores_core (ao : AliasOracle) (cfg : OpCfg) (s : St) (id : Nat) (p : Prog) (h : s.Idle) :
+    (runPlay ao cfg s id p).1.core = s.core := by
   obtain ⟨⟨i1, i2, i3, i4, i5, i6⟩, _, hstore, hen⟩ := runPlay_spec ao cfg s id p h
   obtain ⟨h1, h2, h3, h4, h5, h6⟩ := h
   -- draws, drawn and the id counter are not touched by a replay
@@ -370,7 +365,7 @@ theorem runPlay_restores_core (ao : AliasOracle) (cfg : OpCfg) (s : St) (id : Na
         | ret v => exact ⟨hd, hdn, hn⟩
         | exc t => simp only; split <;> exact ⟨hd, hdn, hn⟩
   rw [core_eq_iff]
-  exact ⟨hen hns, by rw [i1, h1], by rw [i2, h2], by rw [i3, h3], by rw [i4, h4], by rw [i5, h5], by rw [i6, h6],
+  exact ⟨by rw [i1, h1]; simp, by rw [i1, h1], by rw [i2, h2], by rw [i3, h3], by rw [i4, h4], by rw [i5, h5], by rw [i6, h6],
     hrest.1, hrest.2.1, hrest.2.2, hstore⟩
 
 end PlaybackModel.Recorder
